@@ -463,6 +463,7 @@ func (w *World) opMul() {
 			f: func(v *secp256k1.Point, pa []*secp256k1.Point, sa []*secp256k1.Scalar) { v.ScalarMult(sa[0], pa[0]) }})
 	case 2:
 		s := w.pickScalar("s")
+		w.noteLookups(w.scalars[s].Bytes())
 		w.execPointCall(&pointCall{name: "ScalarBaseMult", recv: r, sargs: []int{s}, desc: fmt.Sprintf("p%d.ScalarBaseMult(s%d=%x)", r, s, w.scalars[s].Bytes()),
 			f: func(v *secp256k1.Point, _ []*secp256k1.Point, sa []*secp256k1.Scalar) { v.ScalarBaseMult(sa[0]) }})
 	case 3:
@@ -500,6 +501,11 @@ func (w *World) opMulti() {
 		name = "MultiScalarMultVartime"
 	}
 	w.r.Probe(fmt.Sprintf("multi_len_%d", n))
+	if !vartime && len(ss) == len(ps) && len(ss) >= 2 {
+		for _, si := range ss {
+			w.noteLookups(w.scalars[si].Bytes())
+		}
+	}
 	// a length mismatch is detected before any operand is looked at
 	w.execPointCall(&pointCall{name: name, recv: r, pargs: ps, sargs: ss, extraPanic: mismatch,
 		desc: fmt.Sprintf("p%d.%s(scalars=%v, points=%v)", r, name, ss, ps),
